@@ -98,7 +98,11 @@ theorem validateSiacoins1_ok {ms : Mid} {t : Txn1} (h : validateSiacoins ms t = 
     · rename_i hne; simpa using hne
   have e1 := foldlM_addC (fun o : Id × ScOut => o.2.value) t.scOuts 0 o1 ho1
   have e2 := foldlM_addC (fun f : Id × Fc1 => f.2.payout) t.fcs o1 o2 ho2
-  have e3 := foldlM_addC (fun f : Cur => f) t.fees o2 outS ho3
+  have e3 := foldlM_sum _ (fun f : Cur => f) (by
+    intro s x r hh
+    split at hh
+    · cases hh; rfl
+    · cases hh) _ _ _ ho3
   have e0 := foldlM_sum_P _ (scInVal ms t.supp)
     (fun sci => ms.isSpent sci.parent = false ∧ ∃ p, ms.scElement t.supp sci.parent = some p) (by
     intro s x r hh
